@@ -111,6 +111,18 @@ def check_machine(ctx, prog, f):
                 name_envs[nm].setdefault(before.key(), before.copy())
     desc['after_step'] = after_step2
     m = XmlMachine(prog, desc)
+    # a block comparison or copy that starts at the cursor reads its n bytes whether or not the input ends inside them (unlike
+    # strncmp it does not stop at the terminator): a document cut in the middle of such a token is read past its end
+    def names_cursor(a):
+        x = strip(a)
+        while x.get('k') in ('cast', 'paren'):
+            x = strip(x['e'])
+        return x.get('k') == 'var' and x.get('id') == m.cursor
+    ahead = [e for e in fn_exprs(f) if e.get('k') == 'call' and (e.get('fn') or '') in ('memcmp', 'memcpy', 'memmove') and not e.get('clsp') and len(e.get('a', [])) == 3 and
+             any(names_cursor(a) for a in e['a'][:2]) and (const_val(e['a'][2]) is None or const_val(e['a'][2]) >= 2)]
+    ctx.check(not ahead, 'C07.stack', f['pq'], 'decode:no block read through the cursor', fwhere(f, ahead[0]['l'] if ahead else None), 'the input is consumed byte by byte',
+              '`%s` reads %s bytes starting at the cursor without knowing that the input goes on that far: when the document ends inside the token the read passes the terminating NUL (and the end of the buffer)' % (
+                  pe(ahead[0])[:50] if ahead else '', const_val(ahead[0]['a'][2]) if ahead else ''))
     try:
         m.explore()
     except automaton.Stuck as ex:
